@@ -224,3 +224,9 @@ func (c *Chan[T]) String() string {
 	}
 	return fmt.Sprintf("chan#%d(%s len=%d cap=%d closed=%v)", c.cid, c.name, len(c.buf), c.cap_, c.closed)
 }
+
+// InjectByClock appends v to the channel from a clock action or harness code
+// without a scheduling point (the environment delivering a datagram).
+func (c *Chan[T]) InjectByClock(v T) {
+	c.buf = append(c.buf, item{v: v, vc: release(S.cur)})
+}
